@@ -67,15 +67,58 @@ func fifoRunPrefer(prog *mrogen.Program, src, dir, prefer string) (map[string]st
 	// returns): nodes, forks with their indices, chunks, bindings - as this
 	// run built it, and as a fresh runtime re-attaching to the finished
 	// pipestance rebuilds it
+	// What of the serialized pipestance is compared: its structure - nodes
+	// with type, state and edges; per fork its index, directory, state, the
+	// arguments it was expanded for, its chunks (index, directory) and its
+	// bindings (parameter, mode, type, producing node).  Not compared: the
+	// values bindings resolved to (data of this run: stage outputs depend
+	// on the attempt ids in the paths they are given) and the lists of
+	// metadata files present (they record how far VDR and the journal had
+	// got when the state was taken).
 	norm := func(v any) string {
-		b, _ := json.MarshalIndent(v, "", " ")
-		return uniqRe.ReplaceAllString(strings.ReplaceAll(string(b), filepath.Dir(sim.Dir), "<DIR>"), "-uX")
+		nodes, _ := v.([]*core.NodeInfo)
+		var b strings.Builder
+		base := func(m *core.MetadataInfo) string {
+			if m == nil {
+				return "-"
+			}
+			return uniqRe.ReplaceAllString(strings.TrimPrefix(m.Path, sim.Dir+"/"), "-uX")
+		}
+		for _, n := range nodes {
+			fmt.Fprintf(&b, "node %s type=%v state=%s lang=%v\n", n.Fqname, n.Type, n.State, n.StagecodeLang)
+			for _, e := range n.Edges {
+				fmt.Fprintf(&b, "  edge %s -> %s\n", e.From, e.To)
+			}
+			for _, f := range n.Forks {
+				ap, _ := json.Marshal(f.ArgPermute)
+				fmt.Fprintf(&b, "  fork %d dir=%s state=%s argPermute=%s split=%s join=%s\n", f.Index, base(f.Metadata), f.State, ap, base(f.SplitMetadata), base(f.JoinMetadata))
+				for _, c := range f.Chunks {
+					fmt.Fprintf(&b, "    chunk %d dir=%s state=%s\n", c.Index, base(c.Metadata), c.State)
+				}
+				if f.Bindings != nil {
+					for _, kind := range []struct {
+						name string
+						l    []core.BindingInfo
+					}{{"arg", f.Bindings.Argument}, {"ret", f.Bindings.Return}} {
+						for _, bi := range kind.l {
+							node := "-"
+							if bi.Node != nil {
+								node = *bi.Node
+							}
+							fmt.Fprintf(&b, "    %s %s mode=%s type=%v node=%s\n", kind.name, bi.Id, bi.Mode, bi.Type, node)
+						}
+					}
+				}
+			}
+		}
+		return b.String()
 	}
 	// known finding C10/nondeterministic-run:forks-of-disabled-map-call: how
 	// many forks a disabled map call has depends on the completion order of
 	// its producers; while that is listed, such forks are left out of what is
 	// compared (the reproducer looks at everything)
 	skipDisabled := !c10Raw && stats.Known("C10/nondeterministic-run:forks-of-disabled-map-call")
+	var disabledNodeDirs []string
 	dropDisabled := func(nodes []*core.NodeInfo) []*core.NodeInfo {
 		if !skipDisabled {
 			return nodes
@@ -83,6 +126,9 @@ func fifoRunPrefer(prog *mrogen.Program, src, dir, prefer string) (map[string]st
 		var r []*core.NodeInfo
 		for _, n := range nodes {
 			if n.State == core.DisabledState {
+				if rel, err := filepath.Rel(sim.Dir, n.Path); err == nil {
+					disabledNodeDirs = append(disabledNodeDirs, rel)
+				}
 				c := *n
 				c.Forks = nil
 				n = &c
@@ -91,20 +137,6 @@ func fifoRunPrefer(prog *mrogen.Program, src, dir, prefer string) (map[string]st
 			r = append(r, n)
 		}
 		return r
-	}
-	st1 := dropDisabled(sim.PS.SerializeState(context.Background()))
-	res["state"] = norm(st1)
-	res["forkorder"] = forkOrder(st1)
-	if st := sim.State(); st == core.Complete || st == core.DisabledState {
-		sim.Close()
-		if re, err := simrun.Reattach(sim); err == nil {
-			st2 := dropDisabled(re.PS.SerializeState(context.Background()))
-			res["state-reattached"] = norm(st2)
-			res["forkorder-reattached"] = forkOrder(st2)
-			sim = re
-		} else {
-			res["state-reattached"] = "error: " + err.Error()
-		}
 	}
 	var listing []string
 	filepath.Walk(sim.Dir, func(p string, info os.FileInfo, err error) error {
@@ -123,6 +155,27 @@ func fifoRunPrefer(prog *mrogen.Program, src, dir, prefer string) (map[string]st
 		}
 		return nil
 	})
+	st1 := dropDisabled(sim.PS.SerializeState(context.Background()))
+	res["state"] = norm(st1)
+	res["forkorder"] = forkOrder(st1)
+	if st := sim.State(); st == core.Complete || st == core.DisabledState {
+		sim.Close()
+		if re, err := simrun.Reattach(sim); err == nil {
+			// (a finished pipestance whose disabled map calls are only
+			// expanded on re-attach needs scheduler rounds before every
+			// node reads as it did)
+			for i := 0; i < 4; i++ {
+				re.Refresh()
+				re.Step()
+			}
+			st2 := dropDisabled(re.PS.SerializeState(context.Background()))
+			res["state-reattached"] = norm(st2)
+			res["forkorder-reattached"] = forkOrder(st2)
+			sim = re
+		} else {
+			res["state-reattached"] = "error: " + err.Error()
+		}
+	}
 	sort.Strings(listing)
 	if skipDisabled {
 		// a fork directory that holds _disabled, and everything below it
@@ -137,6 +190,14 @@ func fifoRunPrefer(prog *mrogen.Program, src, dir, prefer string) (map[string]st
 			drop := false
 			for _, g := range gone {
 				if rel == g || strings.HasPrefix(rel, g+"/") {
+					drop = true
+					break
+				}
+			}
+			// (fork directories of a node in the disabled state, with or
+			// without a marker in them)
+			for _, g := range disabledNodeDirs {
+				if strings.HasPrefix(rel, g+"/") {
 					drop = true
 					break
 				}
@@ -158,6 +219,33 @@ func fifoRunPrefer(prog *mrogen.Program, src, dir, prefer string) (map[string]st
 	}
 	res["listing"] = strings.Join(listing, "\n")
 	return res, nil
+}
+
+// commonLines keeps, of two "name: ..." listings, the lines whose name is in
+// both (a node may read complete in one view and not yet in the other).
+func commonLines(a, b string) (string, string) {
+	names := func(s string) map[string]string {
+		m := map[string]string{}
+		for _, l := range strings.Split(s, "\n") {
+			if i := strings.Index(l, ":"); i > 0 {
+				m[l[:i]] = l
+			}
+		}
+		return m
+	}
+	ma, mb := names(a), names(b)
+	var ks []string
+	for k := range ma {
+		if _, ok := mb[k]; ok {
+			ks = append(ks, k)
+		}
+	}
+	sort.Strings(ks)
+	var ra, rb []string
+	for _, k := range ks {
+		ra, rb = append(ra, ma[k]), append(rb, mb[k])
+	}
+	return strings.Join(ra, "\n"), strings.Join(rb, "\n")
 }
 
 // forkOrder: per node that ran, the fork directories in index order.  (A
@@ -201,6 +289,8 @@ func TestC10Run(t *testing.T) {
 		src := prog.Source(nil)
 		var first map[string]string
 		for rep := 0; rep < 3; rep++ {
+			// (a directory of its own for every repetition: goroutines of
+			// the previous Pipestance may still be writing into theirs)
 			c10Seq++
 			dir := filepath.Join(root, fmt.Sprintf("c10-%d-%d", os.Getpid(), c10Seq))
 			got, err := fifoRun(prog, src, dir)
@@ -213,7 +303,8 @@ func TestC10Run(t *testing.T) {
 				}
 				return
 			}
-			if a, b := got["forkorder"], got["forkorder-reattached"]; b != "" && a != b {
+			a, b := commonLines(got["forkorder"], got["forkorder-reattached"])
+			if got["forkorder-reattached"] != "" && a != b {
 				fail(t, "C10", "nondeterministic-run:forkorder-after-reattach", "the forks of a node are in a different order (or carry different indices) once a fresh runtime has re-attached to the finished pipestance:\n%s\n--- program\n%s", firstDiffStr(a, b), src)
 			}
 			if first == nil {
